@@ -19,6 +19,9 @@ def run(ctx):
            make_jobs(ctx, "smr", ["dhp_k4"], S.DHP_LONG[1:], strat=[("pct", 20 if ctx.quick() else 400, 0)], extra_of=lambda v: ["--max-steps", "3000000"])
     # a full retired block (256) of objects that are all guarded by another thread when the retiring thread detaches (below, at, above, 2 blocks)
     jobs += make_jobs(ctx, "smr", ["dhp_k4"], ["holdn:%d,signal,await:2|await:1,retpool,detach,signal" % n for n in (255, 256, 257, 512)], strat=[("pct", 6 if ctx.quick() else 60, 0)], extra_of=lambda v: ["--max-steps", "3000000"])
+    # a thread detaches with < 256 surviving retired objects in a two-block array, its record is reused and filled up again with guarded objects
+    jobs += make_jobs(ctx, "smr", ["dhp_k4"], ["holdn:300,signal,await:2,relsome:100,signal,await:4,holdn:100,signal,await:6|await:1,retpool,signal,await:3,detach,attach,signal,await:5,retpool,signal"],
+                      strat=[("pct", 4 if ctx.quick() else 40, 0)], extra_of=lambda v: ["--max-steps", "3000000"])
     vlib.run_jobs(ctx, jobs)
     vlib.validate_histories(ctx, jobs, "SmrSafety", S.CONSTS + ['Clause = "once"'])
     ctx.impl_runs.append({"driver": "smr", "variants": k1 + k2, "strategies": st})
